@@ -20,7 +20,7 @@ def ufun(name, nargs=1, sort=None, argsorts=None):
     key = (name, nargs, str(sort), str(argsorts))
     if key not in _UF:
         sorts = list(argsorts) if argsorts else [z3.RealSort()] * nargs
-        _UF[key] = z3.Function(name, *sorts, sort or z3.RealSort())
+        _UF[key] = z3.Function(name, *sorts, sort if sort is not None else z3.RealSort())
     return _UF[key]
 
 
@@ -117,6 +117,13 @@ def _cellspace(a, b):
 
 def binop(E, op, a, b, where=""):
     # --- array lifting
+    if (isinstance(a, SSeq) and a.kind == "array") or (isinstance(b, SSeq) and b.kind == "array"):
+        sa, sb = isinstance(a, SSeq), isinstance(b, SSeq)
+        if sa and sb:
+            return SSeq(a.length, lambda i: binop(E, op, a.at(i), b.at(i), where), f"({a.name}{type(op).__name__}{b.name})", "array")
+        if sa:
+            return SSeq(a.length, lambda i: binop(E, op, a.at(i), b, where), a.name + "'", "array")
+        return SSeq(b.length, lambda i: binop(E, op, a, b.at(i), where), b.name + "'", "array")
     if isinstance(a, SCell) or isinstance(b, SCell):
         av = a.v if isinstance(a, SCell) else a
         bv = b.v if isinstance(b, SCell) else b
